@@ -715,9 +715,9 @@ impl Check for C15Check {
             let mut rng = cx.rng.fork(11);
             // one case in twelve: a screen at least 130 columns wide with the tab stops churned and
             // walked before the reset, and walked again after it
-            let tab_case = rng.below(12) == 0;
+            let tab_case = rng.below(8) == 0;
             if tab_case {
-                c = rng.range(130, 140);
+                c = if rng.bool() { rng.range(130, 140) } else { 8 * rng.range(1, 6) };
                 l = rng.range(1, 3);
             }
             if !cx.begin_group(&format!("ris {}x{}", c, l)) {
@@ -753,7 +753,11 @@ impl Check for C15Check {
                         _ => rng.range(1, c),
                     };
                     h.push(Op::Api(Call::CursorToColumn(Some(x))));
-                    h.push(Op::Api(if rng.below(3) == 0 { Call::SetTabStop } else { Call::ClearTabStop(Some(0)) }));
+                    if x == c && rng.bool() {
+                        // into the pending-wrap column first
+                        h.push(Op::Api(Call::Draw("w".into())));
+                    }
+                    h.push(Op::Api(if rng.below(2) == 0 { Call::SetTabStop } else { Call::ClearTabStop(Some(0)) }));
                     if rng.below(3) == 0 {
                         h.push(Op::Api(Call::CarriageReturn));
                         for _ in 0..1 + rng.below(17) {
